@@ -221,7 +221,27 @@ func (s *C21Exch) Exchange(_ context.Context, input arrow.RecordBatch, out *vgir
 	return out.EmitWithMetadata(batch, md)
 }
 
+// One real server per producer batch limit, shared by all cases of the run: the HTTP transport is
+// stateless (all stream state travels in the sealed tokens) and the handlers read the running
+// case from c21Cur, so sharing changes nothing a case can observe (token strings are random per
+// mint either way and are renamed t1, t2, ... per case).
+type c21Shared struct {
+	srv                      *vgirpc.Server
+	hs                       *vgirpc.HttpServer
+	hdr, unary, params, o, i *arrow.Schema
+}
+
+var c21Servers = map[int]*c21Shared{}
+
 func c21NewServer(env *c21Env, limit int) {
+	if sh := c21Servers[limit]; sh != nil {
+		env.srv, env.hs, env.hdrSchema, env.unarySchema, env.paramsSchema = sh.srv, sh.hs, sh.hdr, sh.unary, sh.params
+		env.outSchema, env.inSchema = sh.o, sh.i
+		return
+	}
+	defer func() {
+		c21Servers[limit] = &c21Shared{env.srv, env.hs, env.hdrSchema, env.unarySchema, env.paramsSchema, env.outSchema, env.inSchema}
+	}()
 	srv := vgirpc.NewServer()
 	out := env.outSchema
 	in := env.inSchema
